@@ -153,6 +153,7 @@ type httpSpec struct {
 	RawQuery    string `json:"raw_query"`
 	ContentType string `json:"content_type"` // "" = no header
 	Body        string `json:"body"`
+	Feats       string `json:"feats,omitempty"` // the principal's features (header X-C17-Features)
 }
 
 func (w *world) doHTTP(s httpSpec) Obs {
@@ -179,6 +180,7 @@ func (w *world) doHTTPOnce(s httpSpec) Obs {
 	if s.ContentType != "" {
 		req.Header.Set("Content-Type", s.ContentType)
 	}
+	req.Header.Set(featHeader, s.Feats)
 	resp, err := httpClient.Do(req)
 	if err != nil {
 		return Obs{Resp: "client error: " + err.Error()}
@@ -271,12 +273,12 @@ type wsFrame struct {
 	Payload json.RawMessage `json:"payload"`
 }
 
-func dialWS(base, kind string, init bool) (*wsClient, error) {
+func dialWS(base, kind string, init bool, feats string) (*wsClient, error) {
 	d := &websocket.Dialer{HandshakeTimeout: wsTimeout, Subprotocols: []string{kind}}
 	var conn *websocket.Conn
 	var err error
 	for attempt := 0; attempt < 50; attempt++ {
-		conn, _, err = d.Dial("ws"+strings.TrimPrefix(base, "http")+"/ws", nil)
+		conn, _, err = d.Dial("ws"+strings.TrimPrefix(base, "http")+"/ws", http.Header{featHeader: []string{feats}})
 		if err == nil {
 			break
 		}
@@ -381,15 +383,17 @@ func (c *wsClient) collect(id string) (payloads []string, strays []string, err e
 	}
 }
 
-func (w *world) wsConn(kind string) (*wsClient, error) {
-	if c := w.ws[kind]; c != nil && c.conn != nil {
+// wsConn: one persistent connection per (subprotocol, principal's features).
+func (w *world) wsConn(kind, feats string) (*wsClient, error) {
+	key := kind + "|" + feats
+	if c := w.ws[key]; c != nil && c.conn != nil {
 		return c, nil
 	}
-	c, err := dialWS(w.srv.URL, kind, true)
+	c, err := dialWS(w.srv.URL, kind, true, feats)
 	if err != nil {
 		return nil, err
 	}
-	w.ws[kind] = c
+	w.ws[key] = c
 	return c, nil
 }
 
@@ -402,9 +406,9 @@ func describeWSErr(err error) string {
 
 // doWS sends one start / subscribe message with the given raw payload over the persistent
 // connection of that subprotocol and reports the GraphQL response content it got back.
-func (w *world) doWS(r *hx.Rand, kind string, payload string) Obs {
+func (w *world) doWS(r *hx.Rand, kind, feats string, payload string) Obs {
 	w.resetLogs()
-	c, err := w.wsConn(kind)
+	c, err := w.wsConn(kind, feats)
 	if err != nil {
 		return Obs{Resp: "dial error: " + err.Error()}
 	}
@@ -447,7 +451,7 @@ func decodeVars(text *string) (map[string]interface{}, error) {
 // direct runs the shared pipeline on the abstract request with the real library, no transport:
 // ParseAndValidate with the cost rule, then the configured execute function; the response is
 // marshalled the way every transport marshals it.
-func (w *world) direct(query, opName string, vars, exts map[string]interface{}, useFeaturesFn bool, cost graphql.FieldCost) (o Obs) {
+func (w *world) direct(query, opName string, vars, exts map[string]interface{}, useFeaturesFn bool, feats string, cost graphql.FieldCost) (o Obs) {
 	w.resetLogs()
 	defer func() {
 		if p := recover(); p != nil {
@@ -455,7 +459,7 @@ func (w *world) direct(query, opName string, vars, exts map[string]interface{}, 
 			w.takeLogs()
 		}
 	}()
-	ctx := baseContext(context.Background())
+	ctx := baseContext(context.Background(), feats)
 	var feat graphql.FeatureSet
 	if useFeaturesFn {
 		feat = featuresFromContext(ctx)
